@@ -155,6 +155,11 @@ def alphabet():
         "SliceMid3": (1, lambda k: p.Subscript(p.Variable("g"), p.Slice((None, k[0], None)))), "SliceFromStep": (2, lambda k: p.Subscript(p.Variable("g"), p.Slice((k[0], None, k[1])))),
         "SliceToStep": (2, lambda k: p.Subscript(p.Variable("g"), p.Slice((None, k[0], k[1])))), "SliceFromTo3": (2, lambda k: p.Subscript(p.Variable("g"), p.Slice((k[0], k[1], None)))),
         "SliceAllInTuple": (1, lambda k: p.Subscript(p.Variable("g"), (p.Slice((None, None)), k[0]))), "SliceAllLast": (1, lambda k: p.Subscript(p.Variable("g"), (k[0], p.Slice((None, None))))),
+        # slices whose last bound is absent, printed directly before a closing parenthesis: last call / keyword argument, last tuple element, parenthesised operand
+        "OpenSliceLastArg": (2, lambda k: p.Call(p.Variable("f"), (k[0], p.Slice((k[1], None))))), "OpenSliceKw": (2, lambda k: p.CallWithKwargs(p.Variable("f"), (k[0],), immutabledict({"kw": p.Slice((k[1], None))}))),
+        "OpenSliceOnlyArg": (1, lambda k: p.Call(p.Variable("f"), (p.Slice((None, k[0], None)),))), "OpenSliceInTupleArg": (2, lambda k: p.Call(p.Variable("f"), ((k[0], p.Slice((k[1], None))),))),
+        "OpenSliceSummand": (2, lambda k: p.Sum((p.Slice((k[0], None)), k[1]))), "OpenSliceBase": (2, lambda k: p.Power(p.Slice((k[0], None, None)), k[1])),
+        "OpenSliceAllArg": (1, lambda k: p.Call(p.Variable("f"), (k[0], p.Slice((None, None))))),
     }
     return A
 
